@@ -186,6 +186,14 @@ func (c *Collection) CreateColumn(columnName string, column Column) error {
 		capacity = uint32(c.opts.Capacity)
 	}
 
+	// Rows may live at offsets far beyond the row count (sparse or partly deleted
+	// collections), the column must cover every offset the fill list covers.
+	c.lock.RLock()
+	if size := uint32(len(c.fill)) << 6; size > 0 && size-1 > capacity {
+		capacity = size - 1
+	}
+	c.lock.RUnlock()
+
 	column.Grow(capacity)
 	c.cols.Store(columnName, columnFor(columnName, column))
 
